@@ -43,7 +43,7 @@ type Issue implements Owned { owner: Named tags: [String] n: Int }
 type Repo implements Owned { owner: User! tags: [String!]! stars: Int }
 "lists an interface that itself implements another one BEFORE an unrelated interface"
 type Team implements Named & Node & Owned { id: ID! name: String owner: Named tags: [String] size: Int }
-enum Kind { A B }
+enum Kind { A B @deprecated(reason: "use A") }
 input Filter { kind: Kind name: String = "x" ids: [ID!] nested: Filter min: Int! = 0 req: Boolean! labels: [String!] = ["l"] }
 scalar Date
 scalar Stamp @nitrogql_ts_type(resolverInput: "RI", resolverOutput: "RO", operationInput: "OI", operationOutput: "OO")
